@@ -46,6 +46,10 @@ CLAIMED = {
    text="Bounded model checking (z3) of signature verification logic: Header.Contains equals the seven-clause containment relation for every pattern of equal/different identifier, digest, stamps, links, tags, meta and notes (one-byte symbolic strings) and is monotone under additions; Envelope.Verify / VerifySignature accept iff a supplied key is the signer's and the current header contains the signed header (0-2 keys, either signer); cli.Verify - the single function behind the verify command, the bulk verify action and the HTTP endpoint - reports success iff the key is the signer's and the header was not changed after signing. JWS, parsing and validation are contract stubs in symbolic runs; counterexamples are replayed natively with real ES256 keys and real signed envelopes.",
    note="Assumes the JWS contract (verification with the signing key returns the signed payload, any other key fails), go/ssa faithful, z3 sound. Outside: ES256/JOSE themselves, JSON/YAML parsing. Defects found and fixed: 9131962 (nil digest panic), 8d4173a (cli.Verify ignored the header).",
    ref="DESIGN.md 5 (C09)"),
+ "C08": dict(
+   text="Digest data and control flow only, decided by symbolic execution with z3: with document serialisation, canonicalisation and SHA-256 as injective uninterpreted functions over an abstract content token, the real Envelope.calculate / Digest / Validate / verifyDigest are shown, for symbolic content tokens before and after an edit, to put exactly the digest of the current document into the header, to validate a calculated envelope iff its parts validate, to reject every envelope whose document content differs from the one digested (signed or not), and to produce a different digest after recalculation iff the content differs. Native replays use real documents, canonical JSON and SHA-256.",
+   note="Outside (not decided): the every-field sweep over real serialised documents (whether every member reaches the serialisation: reflection and encoding/json are beyond the encoder) and the re-encoding half, which rests on C07's member-order / escape independence. Injectivity of marshal/c14n/sha256 is an assumption.",
+   ref="DESIGN.md 5 (C08)"),
  "C07": dict(
    text="Bounded model checking (z3) of the c14n package's own code, unit by unit: encodeString on EVERY byte string of length 0..3 (4 thorough): rejected iff not well-formed UTF-8 (RFC 3629), otherwise exactly the minimal-escape form of README rule 8; Integer on every int64; objects with up to three members (symbolic one-byte keys, values integer/null/bool/string): sorted, null members dropped, separators right, independent of input member order; arrays keep nulls and order; the float post-processing on symbolic formatter output keeps digits/exponent and yields README rule 7; the token layer on every decoder token stream of up to 4 (5) tokens: accepted iff exactly one complete value, never a panic.",
    note="encoding/json.Decoder and strconv.AppendFloat are contract stubs in symbolic runs (native replay uses the real ones on rendered text / the denoted float). Outside: nesting deeper than the token bound, long strings. Defects found and fixed: be45fb5, d74cb55, b5a11db, 1c33f8c.",
